@@ -366,3 +366,50 @@ def loopbound_sinks(eng, ft, fn):
                         "loop `%s`" % src, fn.site(hb.tloc or ""), fn, pre=pre))
     out += summary_sinks(eng, ft, fn, "LOOPBOUND")
     return out
+
+
+WRITE_KINDS = ("G2", "G3", "G4")
+SIZING = ("::resize", "::assign", "::reserve")
+
+
+def writelen_sinks(eng, ft, fn):
+    """A stream-derived byte count used as the length of a write into memory
+    (DecoderBuffer::Decode(dst, n), memcpy/memmove(dst, .., n)) must be bounded
+    by the destination's capacity (G2) or a constant (G3) - the remaining
+    input (G1) and smallness by type say nothing about the destination - or
+    the destination must have been sized by the same value."""
+    out = []
+    sized = {}          # place -> labels of the size it was given, block
+    for n, b, rk, ev in fn.nodes():
+        k = n.get("k")
+        if k == "call" and strip_targs(n.get("fn") or "").endswith(SIZING) and n.get("args"):
+            pl = ft.place_of(n.get("obj"))
+            if pl is not None:
+                sized.setdefault(pl, []).append((ft.labels(n["args"][0], b), b))
+        elif k == "ctor" and n.get("cls", "").startswith(("std::vector<", "std::basic_string<")) and n.get("args"):
+            if rk == "decl" and "d" in ev.get("var", {}):
+                sized.setdefault(("v", ev["var"]["d"]), []).append((ft.labels(n["args"][0], b), b))
+    for n, b, rk, ev in fn.nodes():
+        if n.get("k") != "call":
+            continue
+        base = strip_targs(n.get("fn") or "")
+        args = n.get("args", [])
+        dst = ln = None
+        if base == "draco::DecoderBuffer::Decode" and len(args) == 2:
+            dst, ln = args[0], args[1]
+        elif base in ("memcpy", "std::memcpy", "memmove", "__builtin_memcpy") and len(args) == 3:
+            dst, ln = args[0], args[2]
+        if ln is None:
+            continue
+        labs = ft.labels(ln, b)
+        if not labs:
+            continue
+        pre = None
+        dpl = ft.place_of(dst)
+        for slabs, sb in sized.get(dpl, []):
+            if (slabs & labs) and fn.block_dominates(sb, b):
+                pre = "destination was sized by the same stream value before the write"
+        out.append(Sink("WRITELEN", WRITE_KINDS, n, b, labs, "%s(dst, length)" % base,
+                        fn.site(n.get("loc", "")), fn, pre=pre))
+    out += summary_sinks(eng, ft, fn, "WRITELEN")
+    return out
